@@ -288,150 +288,179 @@ def model_params(mm):
 
 
 # --------------------------------------------------------------------------- store/load kernels (C06)
+# The generators keep their own symbolic bookkeeping (a third implementation, independent of OSACA and of the
+# Lean model): every register holds `origin + delta` of a register value at the time of the store, or is unknown.
+def _sym_addr(sym, base, idx, scale, disp):
+    """symbolic address {origin: coefficient} + constant, or None if a register is unknown"""
+    terms, const = {}, disp
+    for reg, coef in ((base, 1), (idx, scale)):
+        if reg is None:
+            continue
+        v = sym.get(reg, (reg, 0))
+        if v is None:
+            return None
+        terms[v[0]] = terms.get(v[0], 0) + coef
+        const += v[1] * coef
+    return {k: c for k, c in terms.items() if c}, const
+
+
 def gen_memdep_x86(rng):
-    """store; 0-3 pointer bumps / copies / clobbers; load.  Returns (lines, meta)."""
+    """store; 0-4 pointer bumps / copies / clobbers on any register holding the base or index; load."""
     fams = rng.sample(X86_GPR[:8], 6)
-    base, idx, other, cpy, val, cpy2 = ("%" + f[0] for f in fams)
+    base, idx, other, c1, val, c2 = ("%" + f[0] for f in fams)
     shape = rng.choice(["b", "bd", "bisd", "bis"])
+    has_idx = shape in ("bis", "bisd")
     d0 = rng.choice([0, 8, 16, -8, 32, 0x40])
     sc = rng.choice([1, 2, 4, 8])
 
-    def addr(b, i, disp):
-        if shape == "b":
-            return "(%s)" % b if disp == 0 else "%d(%s)" % (disp, b)
-        if shape == "bd":
-            return "%d(%s)" % (disp, b)
-        if shape == "bis":
-            return "(%s,%s,%d)" % (b, i, sc) if disp == 0 else "%d(%s,%s,%d)" % (disp, b, i, sc)
-        return "%d(%s,%s,%d)" % (disp, b, i, sc)
+    def addr(b, i, s_, disp):
+        if not has_idx:
+            return "(%s)" % b if (disp == 0 and shape == "b") else "%d(%s)" % (disp, b)
+        return "(%s,%s,%d)" % (b, i, s_) if (disp == 0 and shape == "bis") else "%d(%s,%s,%d)" % (disp, b, i, s_)
 
-    lines = [rng.choice(["movq %s, %s" % (val, addr(base, idx, d0)), "vmovsd %%xmm1, %s" % addr(base, idx, d0)])]
-    delta_b = delta_i = 0
-    cur_base, cur_idx = base, idx
-    known = True
-    for _ in range(rng.choice([0, 0, 1, 1, 2, 3])):
+    lines = [rng.choice(["movq %s, %s" % (val, addr(base, idx, sc, d0)), "vmovsd %%xmm1, %s" % addr(base, idx, sc, d0)])]
+    sym = {}                                    # reg -> (origin, delta) | None
+    store_addr = _sym_addr(sym, base, idx if has_idx else None, sc, d0)
+    holders_b, holders_i = [base], [idx]        # registers currently derived from base / index
+    second = False
+    for _ in range(rng.choice([0, 0, 1, 1, 2, 3, 4])):
         r = rng.random()
-        tgt = rng.choice(["b", "i"]) if shape in ("bis", "bisd") else "b"
-        reg = cur_base if tgt == "b" else cur_idx
-        if r < 0.35:
+        pool = holders_b + (holders_i if has_idx else [])
+        reg = rng.choice(pool)
+        if r < 0.30:
             k = rng.choice([8, 16, 1, 64, -8])
             lines.append("addq $%d, %s" % (k, reg))
-            d = k
-        elif r < 0.5:
+            v = sym.get(reg, (reg, 0))
+            sym[reg] = None if v is None else (v[0], v[1] + k)
+        elif r < 0.45:
             k = rng.choice([8, 16, 1])
             lines.append("subq $%d, %s" % (k, reg))
-            d = -k
-        elif r < 0.6:
-            lines.append("incq %s" % reg)
-            d = 1
-        elif r < 0.7:
-            lines.append("decq %s" % reg)
-            d = -1
-        elif r < 0.8:
-            c = cpy if tgt == "b" else cpy2
-            if reg == c:
+            v = sym.get(reg, (reg, 0))
+            sym[reg] = None if v is None else (v[0], v[1] - k)
+        elif r < 0.55:
+            lines.append("%s %s" % (rng.choice(["incq", "decq"]), reg))
+            v = sym.get(reg, (reg, 0))
+            sym[reg] = None if v is None else (v[0], v[1] + (1 if lines[-1].startswith("inc") else -1))
+        elif r < 0.80:
+            c = c1 if reg in holders_b else c2
+            if c == reg:
                 continue
-            lines.append("movq %s, %s" % (reg, c))         # register copy: use the copy from now on
-            if tgt == "b":
-                cur_base = c
-            else:
-                cur_idx = c
-            d = 0
-        elif r < 0.9:
-            lines.append("leaq 8(%s), %s" % (reg, reg))    # unknown change
-            known = False
-            d = 0
-        else:
+            lines.append("movq %s, %s" % (reg, c))         # register copy; both stay usable afterwards
+            sym[c] = sym.get(reg, (reg, 0))
+            (holders_b if reg in holders_b else holders_i).append(c) if c not in pool else None
+        elif r < 0.88:
+            lines.append("leaq 8(%s), %s" % (reg, reg))    # a change OSACA cannot reconstruct
+            sym[reg] = None
+        elif r < 0.94:
             lines.append("addq %s, %s" % (other, other))   # unrelated
-            d = 0
-            tgt = None
-        if tgt == "b":
-            delta_b += d
-        elif tgt == "i":
-            delta_i += d
-    # displacement of the load: compensate (same location) or not
-    same = rng.random() < 0.6
-    comp = d0 - delta_b - (delta_i * sc if shape in ("bis", "bisd") else 0)
-    dl = comp if same else comp + rng.choice([8, -8, 16, 1])
-    if shape == "b" and dl != 0:
-        shape_l = "bd"
-    second = False
-    if rng.random() < 0.15:
-        # a second store to the very same operand ends the search
-        lines.append("movq %s, %s" % (val, addr(base, idx, d0)))
-        second = True
-    other_base = rng.random() < 0.15
-    lb = ("%" + fams[2][0]) if other_base else cur_base
-    if shape == "b":
-        la = "(%s)" % lb if dl == 0 else "%d(%s)" % (dl, lb)
-    elif shape == "bd":
-        la = "%d(%s)" % (dl, lb)
-    elif shape == "bis":
-        la = "(%s,%s,%d)" % (lb, cur_idx, sc) if dl == 0 else "%d(%s,%s,%d)" % (dl, lb, cur_idx, sc)
+        else:
+            lines.append("movq %s, %s" % (val, addr(base, idx, sc, d0)))   # a second store to the very same operand
+            second = True
+    lb = rng.choice(holders_b)
+    li = rng.choice(holders_i) if has_idx else None
+    if rng.random() < 0.12:
+        lb = other                                                           # unrelated base register
+    lsc = sc if (not has_idx or rng.random() < 0.85) else rng.choice([x for x in (1, 2, 4, 8) if x != sc])
+    # choose the displacement so that the addresses coincide (if they can), or not
+    want_same = rng.random() < 0.6
+    probe = _sym_addr(sym, lb, li, lsc, 0)
+    if probe is not None and store_addr is not None and probe[0] == store_addr[0]:
+        dl = store_addr[1] - probe[1]
+        if not want_same:
+            dl += rng.choice([8, -8, 16, 1])
     else:
-        la = "%d(%s,%s,%d)" % (dl, lb, cur_idx, sc)
+        dl = rng.choice([0, 8, 16])
+    if shape == "b" and dl != 0:
+        la = "%d(%s)" % (dl, lb)
+    elif shape == "bis" and dl != 0:
+        la = "%d(%s,%s,%d)" % (dl, lb, li, lsc)
+    else:
+        la = addr(lb, li, lsc, dl)
+    la_sym = _sym_addr(sym, lb, li, lsc, dl)
+    same = la_sym is not None and store_addr is not None and la_sym == store_addr
     lines.append(rng.choice(["movq %s, %%r11" % la, "vmovsd %s, %%xmm2" % la, "addq %s, %%r11" % la]))
     lines.append("addq %r11, %r12")
-    return lines, {"same_location": same and known and not other_base, "known": known, "second_store": second}
+    return lines, {"same_location": same, "known": la_sym is not None, "second_store": second}
 
 
 def gen_memdep_a64(rng):
-    regs = rng.sample([1, 2, 3, 4, 5, 6, 7, 8, 11, 12], 5)   # x9/x10 are the load's destination / consumer
-    base, idx, other, cpy, val = regs
+    regs = rng.sample([1, 2, 3, 4, 5, 6, 7, 8, 11, 12], 6)   # x9/x10 are the load's destination / consumer
+    base, idx, other, c1, val, c2 = ("x%d" % r for r in regs)
     shape = rng.choice(["b", "bd", "bi", "bis"])
-    d0 = rng.choice([0, 8, 16, 32, -16])
-    sh = rng.choice([2, 3])
+    has_idx = shape in ("bi", "bis")
+    d0 = rng.choice([0, 8, 16, 32, -16]) if not has_idx else 0
+    sh = rng.choice([2, 3]) if shape == "bis" else 0
 
-    def addr(b, i, disp):
-        if shape == "b" or (shape == "bd" and disp == 0 and False):
-            return "[x%d]" % b if disp == 0 else "[x%d, #%d]" % (b, disp)
-        if shape == "bd":
-            return "[x%d, #%d]" % (b, disp)
-        if shape == "bi":
-            return "[x%d, x%d]" % (b, i)
-        return "[x%d, x%d, lsl #%d]" % (b, i, sh)
+    def addr(b, i, shift, disp):
+        if not has_idx:
+            return "[%s]" % b if (disp == 0 and shape == "b") else "[%s, #%d]" % (b, disp)
+        return "[%s, %s]" % (b, i) if shift == 0 else "[%s, %s, lsl #%d]" % (b, i, shift)
 
-    lines = [rng.choice(["str x%d, %s" % (val, addr(base, idx, d0)), "str d1, %s" % addr(base, idx, d0)])]
-    delta_b = 0
-    cur_base = base
-    known = True
-    for _ in range(rng.choice([0, 0, 1, 1, 2, 3])):
+    lines = [rng.choice(["str %s, %s" % (val, addr(base, idx, sh, d0)), "str d1, %s" % addr(base, idx, sh, d0)])]
+    sym = {}
+    store_addr = _sym_addr(sym, base, idx if has_idx else None, 2 ** sh, d0)
+    holders_b, holders_i = [base], [idx]
+    second = False
+    for _ in range(rng.choice([0, 0, 1, 1, 2, 3, 4])):
         r = rng.random()
-        if r < 0.35:
+        pool = holders_b + (holders_i if has_idx else [])
+        reg = rng.choice(pool)
+        v = sym.get(reg, (reg, 0))
+        if r < 0.25:
             k = rng.choice([8, 16, 64])
-            lines.append("add x%d, x%d, #%d" % (cur_base, cur_base, k))
-            delta_b += k
-        elif r < 0.55:
+            lines.append("add %s, %s, #%d" % (reg, reg, k))
+            sym[reg] = None if v is None else (v[0], v[1] + k)
+        elif r < 0.40:
             k = rng.choice([8, 16])
-            lines.append("sub x%d, x%d, #%d" % (cur_base, cur_base, k))
-            delta_b -= k
-        elif r < 0.7:
+            lines.append("sub %s, %s, #%d" % (reg, reg, k))
+            sym[reg] = None if v is None else (v[0], v[1] - k)
+        elif r < 0.52:
             k = rng.choice([8, 16, 32])
-            lines.append("ldr d5, [x%d], #%d" % (cur_base, k))     # post-indexed access bumps the base
-            delta_b += k
-        elif r < 0.8:
+            lines.append("ldr d5, [%s], #%d" % (reg, k))          # post-indexed access bumps the register
+            sym[reg] = None if v is None else (v[0], v[1] + k)
+        elif r < 0.62:
             k = rng.choice([8, 16])
-            lines.append("ldr d6, [x%d, #%d]!" % (cur_base, k))    # pre-indexed access bumps the base
-            delta_b += k
-        elif r < 0.9:
-            lines.append("mov x%d, x%d" % (cpy, cur_base))
-            cur_base = cpy
+            c = c1 if reg in holders_b else c2
+            if c == reg:
+                continue
+            lines.append("add %s, %s, #%d" % (c, reg, k))         # copy with increment
+            sym[c] = None if v is None else (v[0], v[1] + k)
+            if c not in pool:
+                (holders_b if reg in holders_b else holders_i).append(c)
+        elif r < 0.80:
+            c = c1 if reg in holders_b else c2
+            if c == reg:
+                continue
+            lines.append("mov %s, %s" % (c, reg))
+            sym[c] = v
+            if c not in pool:
+                (holders_b if reg in holders_b else holders_i).append(c)
+        elif r < 0.90:
+            lines.append("mul %s, %s, %s" % (reg, reg, other))    # unknown change
+            sym[reg] = None
         else:
-            lines.append("mul x%d, x%d, x%d" % (cur_base, cur_base, other))
-            known = False
-    same = rng.random() < 0.6
-    comp = d0 - delta_b
-    dl = comp if same else comp + rng.choice([8, -8, 16])
-    other_base = rng.random() < 0.15
-    lb = other if other_base else cur_base
-    if shape in ("b", "bd"):
-        la = "[x%d]" % lb if (dl == 0 and shape == "b") else "[x%d, #%d]" % (lb, dl)
-    elif shape == "bi":
-        la = "[x%d, x%d]" % (lb, idx)
-        same = delta_b == 0          # no displacement in this shape: same location iff the base did not move
+            lines.append("str %s, %s" % (val, addr(base, idx, sh, d0)))
+            second = True
+    lb = rng.choice(holders_b)
+    li = rng.choice(holders_i) if has_idx else None
+    if rng.random() < 0.12:
+        lb = other
+    lsh = sh if (shape != "bis" or rng.random() < 0.85) else (5 - sh)
+    want_same = rng.random() < 0.6
+    if has_idx:
+        dl = 0
+        la = addr(lb, li, lsh, 0)
     else:
-        la = "[x%d, x%d, lsl #%d]" % (lb, idx, sh)
-        same = delta_b == 0
+        probe = _sym_addr(sym, lb, None, 1, 0)
+        if probe is not None and probe[0] == store_addr[0]:
+            dl = store_addr[1] - probe[1]
+            if not want_same:
+                dl += rng.choice([8, -8, 16])
+        else:
+            dl = rng.choice([0, 8, 16])
+        la = "[%s]" % lb if (dl == 0 and shape == "b") else "[%s, #%d]" % (lb, dl)
+    la_sym = _sym_addr(sym, lb, li, 2 ** lsh, dl)
+    same = la_sym is not None and la_sym == store_addr
     lines.append(rng.choice(["ldr x9, %s" % la, "ldr d2, %s" % la]))
     lines.append("add x10, x9, x9")
-    return lines, {"same_location": same and known and not other_base, "known": known}
+    return lines, {"same_location": same, "known": la_sym is not None, "second_store": second}
